@@ -106,10 +106,15 @@ theorem unknown_driver_refused (registered : List String) (name : String) (h : n
   simp [Config.lookup, h]
 
 /-- interval-variation options outside their documented ranges are refused (see also C18) -/
-theorem varinterval_options_refused (c : VarInterval.Cfg) (h : c.pn ≤ 0 ∨ (c.pd : Int) < c.pn ∨ c.maxDelta ≤ 0) :
+theorem varinterval_options_refused (c : VarInterval.Cfg)
+    (h : c.pn ≤ 0 ∨ (c.pd : Int) < c.pn ∨ c.maxDelta ≤ 0 ∨ 2147483647 < c.maxDelta) :
     VarInterval.checkConfig c = false := by
-  simp only [VarInterval.checkConfig]
-  rcases h with h | h | h <;> simp <;> omega
+  cases hc : VarInterval.checkConfig c with
+  | false => rfl
+  | true =>
+    unfold VarInterval.checkConfig VarInterval.maxDeltaLimit at hc
+    simp only [Bool.and_eq_true, decide_eq_true_eq] at hc
+    omega
 
 /-- a Redis URL whose scheme is not `redis`, or whose database segment is not a number, is refused -/
 theorem redis_url_scheme (path : Bytes) : Config.parseRedisURL false path = .error := by
